@@ -38,11 +38,10 @@ Outcomes == {[t |-> "ret", v |-> v, k |-> ""] : v \in OutValues} \cup {[t |-> "r
 ScopesAll == Scopes
 ScopesTwo == {"top", "indent"}
 ScopesTop == {"top"}
-Envs == {e \in [app : Apps, catch : Catching, verb : Verbs, line : MCLines, pre : Pres, listeners : ListenerSeqs, outcome : Outcomes,
-                scope : MCScopes] :
-           ~(e.line = "nosuch" /\ e.app = "default")}
-
-Init == \E e \in Envs : st = Start(e)
+\* one initial state per environment of the product (nested quantifiers: the product itself is never built as a set)
+Init == \E a \in Apps, c \in Catching, v \in Verbs, ln \in MCLines, p \in Pres, ls \in ListenerSeqs, o \in Outcomes, sc \in MCScopes :
+          /\ ~(ln = "nosuch" /\ a = "default")
+          /\ st = Start([app |-> a, catch |-> c, verb |-> v, line |-> ln, pre |-> p, listeners |-> ls, outcome |-> o, scope |-> sc])
 CreateIO == st.phase = "start" /\ st' = Step(st)
 PreResolve == st.phase = "ioReady" /\ st' = Step(st)
 Resolve == st.phase = "preResolved" /\ st' = Step(st)
